@@ -174,6 +174,120 @@ class TranscriptRows(Case):
         return [[_etype(x.type), o(x.start), o(x.end), _ename(x.strand), _ename(x.phase)] for x in r]
 
 
+class FeatureRows(Case):
+    """FeatureInterval.to_gff: one feature row and one sub-region row per block, 1-based inclusive coordinates of the
+    source blocks in the exported coordinate system (adjacent blocks stay separate rows), phase '.' everywhere."""
+    props = ("C11", "C07")
+    func = FEATURE + ".to_gff"
+
+    def __init__(self, n, chunk=False):
+        self.n, self.chunk = n, chunk
+        mode = "chunk-relative" if chunk else "chromosome"
+        self.name = f"FeatureInterval.to_gff[{n} blocks, {mode}]"
+        self.call = f"list(f.to_gff(parent='fc1', chromosome_relative_coordinates={not chunk}))"
+        self.ensures = {
+            "row-count": lambda i, r: len(r) == 1 + n,
+            "feature-row-is-span": lambda i, r: And(r[0].start == i.blocks[0][0] + 1, r[0].end == i.blocks[-1][1]),
+            "block-rows-are-source-blocks": lambda i, r: And(*[
+                And(r[1 + k].start == i.blocks[k][0] + 1, r[1 + k].end == i.blocks[k][1]) for k in range(n)]),
+            "strand-everywhere": lambda i, r: all(_same_enum(x.strand, i.strand) for x in r),
+            "no-phase": lambda i, r: all(_ename(x.phase) == "NONE" for x in r),
+            "parent-wiring": lambda i, r: And(
+                r[0].attributes.parent == "fc1",
+                *[same_text(x.attributes.parent, r[0].attributes.id) for x in r[1:]]),
+            "ids-pairwise-different": lambda i, r: all(
+                same_text(r[a].attributes.id, r[b].attributes.id) is False
+                for a in range(len(r)) for b in range(a + 1, len(r))),
+        }
+
+    def inputs(self, S):
+        starts, ends = block_lists(S, "f", self.n)
+        strand = strand_of(S, "strand")
+        off, cp = 0, None
+        if self.chunk:
+            cp, cs, ce = chunk_parent(S)
+            S.assume(And(cs <= starts[0], ends[-1] <= ce))
+            off = cs
+        f = S.new(FEATURE, starts, ends, strand, sequence_name="chr1", feature_id="f1", parent_or_seq_chunk_parent=cp)
+        return NS(f=f, strand=strand, blocks=[(s - off, e - off) for s, e in zip(starts, ends)])
+
+    def samples(self, rng):
+        d = sample_blocks(rng, "f", self.n, lo=2, length=(1, 2, 3, 5))
+        d["strand"] = rng.choice(["PLUS", "MINUS"])
+        if self.chunk:
+            cs = rng.randint(0, d["f_starts"][0])
+            ce = d["f_ends"][-1] + rng.randint(0, 3)
+            d.update(chunk_start=cs, chunk_end=ce, chunk_seq="".join(rng.choice("ACGT") for _ in range(ce - cs)))
+        return d
+
+    def observe(self, r):
+        from pyvc.check import default_observe as o
+        return [[_etype(x.type), o(x.start), o(x.end), _ename(x.strand), _ename(x.phase)] for x in r]
+
+
+QKEYS = ("product", "protein_id", "note")
+
+
+class GeneRowQualifiers(Case):
+    """GeneInterval.to_gff, all rows materialised BEFORE any is rendered (as AnnotationCollection.to_gff does, which
+    sorts the row objects first): every row carries exactly its own level's qualifiers - gene row: the gene's;
+    transcript / exon rows: gene's + transcript's + protein id; CDS rows: those + product.  Nothing a child adds may
+    appear on the gene row or on a sibling isoform (complete finite domain of qualifier placements, two isoforms)."""
+    props = ("C11",)
+    name = "GeneInterval.to_gff[row qualifiers per level, two isoforms, all placements]"
+    func = "gene.gene.GeneInterval.to_gff"
+    module = "gene.gene"
+    call = ("[(r.type.name, [sorted(r.attributes.attributes.get(k, ())) for k in KEYS], r.attributes.parent is None) "
+            "for r in list(GeneInterval(txs, gene_id='g1', sequence_name='chr1', qualifiers=gq).to_gff())]")
+    ensures = {
+        "row-kinds": lambda i, r: [x[0] for x in r] == ["GENE"] + ["TRANSCRIPT", "EXON", "CDS"] * 2,
+        "gene-row-has-only-gene-qualifiers": lambda i, r: r[0][1] == [sorted(set(i.gq.get(k, ()))) for k in QKEYS],
+        "isoform-rows-have-gene+own-qualifiers": lambda i, r: all(
+            r[1 + 3 * j + t][1] == _expected_level(i, j, t) for j in range(2) for t in range(3)),
+    }
+
+    def inputs(self, S):
+        zero = S.enum_const(FRAME, "ZERO")
+        plus = S.enum_const(STRAND, "PLUS")
+        spec = S.const("spec")
+        gq = {k: list(v) for k, v in spec["gene"]}
+        txs = []
+        for j, t in enumerate(spec["tx"]):
+            s = 10 * j
+            txs.append(S.new(TRANSCRIPT, [s], [s + 9], plus, cds_starts=[s], cds_ends=[s + 9], cds_frames=[zero],
+                             transcript_id=f"tx{j}", sequence_name="chr1", product=t["product"], protein_id=t["protein_id"],
+                             qualifiers={k: list(v) for k, v in t["q"]}))
+        return NS(txs=txs, gq=gq, tq=[{k: list(v) for k, v in t["q"]} for t in spec["tx"]],
+                  prod=[t["product"] for t in spec["tx"]], pid=[t["protein_id"] for t in spec["tx"]],
+                  KEYS=QKEYS, GeneInterval=S.cls("gene.gene.GeneInterval"))
+
+    def ground(self):
+        genes = [[], [["product", ["family"]]], [["note", ["n1"]], ["protein_id", ["gp"]]]]
+        txq = [[], [["product", ["own"]]]]
+        for g in genes:
+            for q0, q1 in itertools.product(txq, repeat=2):
+                for p0, p1 in (("iso 1", "iso 2"), (None, "iso 2"), ("iso 1", None)):
+                    for i0, i1 in (("P1", "P2"), (None, "P2")):
+                        yield dict(spec=dict(gene=g, tx=[dict(q=q0, product=p0, protein_id=i0),
+                                                         dict(q=q1, product=p1, protein_id=i1)]))
+
+    def observe(self, r):
+        return [[x[0], [list(v) for v in x[1]], bool(x[2])] for x in r]
+
+
+def _expected_level(i, j, t):
+    """QKEYS value lists on row t (0 transcript, 1 exon, 2 CDS) of isoform j."""
+    out = []
+    for k in QKEYS:
+        vals = set(i.gq.get(k, ())) | set(i.tq[j].get(k, ()))
+        if k == "protein_id" and i.pid[j]:
+            vals.add(i.pid[j])
+        if k == "product" and t == 2 and i.prod[j]:
+            vals.add(i.prod[j])
+        out.append(sorted(vals))
+    return out
+
+
 def _etype(t):
     return t.members[t.idx][1] if hasattr(t, "members") else t.value
 
@@ -211,7 +325,8 @@ class RowText(Case):
 
 
 CASES = [Escape(), AttributesColumn(), RowText(), TranscriptRows(1), TranscriptRows(2), TranscriptRows(1, True),
-         TranscriptRows(2, True)]
+         TranscriptRows(2, True), FeatureRows(2), FeatureRows(2, True), FeatureRows(3, True),
+         GeneRowQualifiers()]
 
 CANARIES = [
     dict(name="gff: start not shifted to 1-based", props=("C11",), file="inscripta/biocantor/gene/transcript.py",
